@@ -230,6 +230,9 @@ type zzStep struct {
 	namespace string
 	// namespaces: per desired resource, overriding namespace ("" = use namespace)
 	namespaces []string
+	// bodyless: per desired resource, the entry has no resource body (a function
+	// that only reports on the resource, e.g. its readiness)
+	bodyless []bool
 	// carried: per desired resource, a composition-resource-name annotation its
 	// body carries (e.g. copied over from an observed resource of another name)
 	carried []string
@@ -353,6 +356,9 @@ func (r *zzRunner) RunFunction(_ context.Context, name string, req *fnv1.RunFunc
 					panic(err)
 				}
 				res.Resource = ns
+			}
+			if i < len(st.bodyless) && st.bodyless[i] {
+				res.Resource = nil
 			}
 			if i < len(st.ready) {
 				res.Ready = st.ready[i]
